@@ -235,3 +235,20 @@ def register(claim, na):
         "real round trip per expression + z3 (QF_UFNRA: interpreted arithmetic and real roots, uninterpreted transcendental heads) over all symbol values",
         "DESIGN.md §1 E1, §2 C19",
     )
+    claim(
+        "C11", "model_checking",
+        "NARROW solver claim: the dictionary-level round trip convert_dict_to_op(convert_op_to_dict(op)) is explored symbolically for terms and "
+        "sums of <= 3 terms over seven Pauli strings (constant, gaps, multi-digit qubit indices, duplicate strings) with EVERY coefficient part a z3 "
+        "real: real-typed coefficients, complex-typed ones (a complex subclass with symbolic parts, so the real isinstance branch is taken) and the "
+        "falsy-imaginary branch are all forked; per path z3 proves the dictionary carries the term's own strings/qubits/parts, the argument is "
+        "untouched, the result denotes the same matrix within (terms per string) x 1e-8 and, where nothing was merged or dropped, every part is "
+        "preserved exactly. All other clauses (print -> parse over a grid of 39 coefficient shapes x 7 strings and seeded sums; real JSON text; "
+        "save/load of operators and operator lists via path and open file; measurements, expectation values with None/0/1/several real or complex "
+        "frames, parities, value estimates, lists, layers, connectivity, ordering, measurement-count estimates) are executed concretely as GROUND "
+        "instances: they are reported and replayed like any violation but are not solver coverage.",
+        "Text, JSON, file and array-dtype code paths need concrete machine values (repr/strtod, rapidjson/json, numpy dtype dispatch): not reachable "
+        "symbolically here, stated in DESIGN.md. Exact-real floats in the symbolic part. Two genuine defects found by the ground battery were repaired "
+        "(F16 load_nmeas_estimate KeyError, F17 empty frame lists loaded as None).",
+        "SymTrace path exploration with z3 for the dictionary round trip; ground (concrete) execution for text/JSON/file/artefact round trips",
+        "DESIGN.md §1 E2, §2 C11",
+    )
